@@ -52,7 +52,7 @@ func main() {
 		},
 		Gen:           gen,
 		Run:           run,
-		Timeout:       120 * time.Second,
+		Timeout:       30 * time.Second,
 		MinNonTrivial: 500,
 	})
 }
